@@ -90,6 +90,7 @@ COMBINATORS = {
     "std::result::Result::<T, E>::map_or": (("val", ("call", 2, True)), ("val", ("arg", 1))),
     "std::result::Result::<T, E>::map_or_else": (("val", ("call", 2, True)), ("val", ("call", 1, True))),
     "std::result::Result::<T, E>::ok": (("some", "payload"), ("none",)),
+    "std::option::Option::<T>::filter": (("none",), ("filter", ("call", 1, "ref"))),
 }
 VARIANTS = {"opt": (("None", None), ("Some", "0")), "res": (("Ok", "0"), ("Err", "0"))}
 ADT = {"opt": "std::option::Option", "res": "std::result::Result"}
@@ -154,7 +155,7 @@ def desugar_combinators(m, prog=None):
                 ok = False
             if isinstance(x, tuple) and x[0] == "arg" and x[1] >= len(t["args"]):
                 ok = False
-            if arm[0] in ("some", "ok", "err", "none") and dkind is None:
+            if arm[0] in ("some", "ok", "err", "none", "filter") and dkind is None:
                 ok = False
             if arm[0] == "keep" and dty != sty and not (dkind == kind):
                 ok = False
@@ -190,6 +191,8 @@ def desugar_combinators(m, prog=None):
                 # result type of the call
                 if arm[0] == "val":
                     rty = dty
+                elif arm[0] == "filter":
+                    rty = "bool"
                 elif arm[0] == "some":
                     rty = dargs[0]
                 elif arm[0] == "ok":
@@ -215,7 +218,13 @@ def desugar_combinators(m, prog=None):
                 else:
                     callee = dict(cal[1])
                     want_args = None
-                if x[2]:
+                if x[2] == "ref":
+                    l_v = len(m["locals"])
+                    m["locals"].append({"ty": "&" + pty, "mut": True})
+                    stmts.append({"k": "assign", "place": {"l": l_v, "p": [], "ty": "&" + pty},
+                                  "rv": {"k": "ref", "mut": False, "place": payload_op()["place"]}, "loc": loc})
+                    cargs.append({"k": "move", "place": {"l": l_v, "p": [], "ty": "&" + pty}})
+                elif x[2]:
                     l_v = len(m["locals"])
                     m["locals"].append({"ty": pty, "mut": True})
                     stmts.append({"k": "assign", "place": {"l": l_v, "p": [], "ty": pty}, "rv": {"k": "use", "op": payload_op()}, "loc": loc})
@@ -233,6 +242,8 @@ def desugar_combinators(m, prog=None):
                     agg(kind, vname, vi, [payload_op()] if vfield is not None else [])
             elif arm[0] == "val":
                 fin = {"k": "use", "op": value_op}
+            elif arm[0] == "filter":
+                fin = ("filter", value_op)
             elif arm[0] == "some":
                 fin = agg("opt", "Some", 1, [value_op])
             elif arm[0] == "ok":
@@ -240,6 +251,11 @@ def desugar_combinators(m, prog=None):
             else:
                 fin = agg("res", "Err", 1, [value_op])
             fin_stmt = {"k": "assign", "place": t["dest"], "rv": fin, "loc": loc}
+            if isinstance(fin, tuple) and fin[0] == "filter":
+                # keep the value when the predicate holds, None otherwise: two final blocks behind a bool switch
+                fin_stmt = ("filter", fin[1],
+                            {"k": "assign", "place": t["dest"], "rv": {"k": "use", "op": {"k": "move", "place": {"l": l_s, "p": [], "ty": sty}}}, "loc": loc},
+                            {"k": "assign", "place": t["dest"], "rv": agg("opt", "None", 0, []), "loc": loc})
             arm_blocks.append((stmts, call_term, fin_stmt))
         if not ok or len(arm_blocks) != 2:
             # give up on this site: undo the two statements added (the locals stay unused)
@@ -251,6 +267,12 @@ def desugar_combinators(m, prog=None):
             ids.append(bid)
             if call_term is None:
                 m["blocks"].append({"stmts": stmts + [fin_stmt], "term": {"k": "goto", "target": t["target"]}})
+            elif isinstance(fin_stmt, tuple):
+                call_term["target"] = bid + 1
+                m["blocks"].append({"stmts": stmts, "term": call_term})
+                m["blocks"].append({"stmts": [], "term": {"k": "switch", "discr": fin_stmt[1], "discr_ty": "bool", "targets": [[0, bid + 3]], "otherwise": bid + 2, "loc": loc}})
+                m["blocks"].append({"stmts": [fin_stmt[2]], "term": {"k": "goto", "target": t["target"]}})
+                m["blocks"].append({"stmts": [fin_stmt[3]], "term": {"k": "goto", "target": t["target"]}})
             else:
                 call_term["target"] = bid + 1
                 m["blocks"].append({"stmts": stmts, "term": call_term})
